@@ -6,6 +6,8 @@ open Io
      then a prefix-coded stream:
        O <n> entries:  split <arg> <strs> | strip|norm|mkid|nlt|nl|gfm <arg> <res> | isdigit <arg> 0|1
                      | lex <lang> <text> (! | <k> (<classes strs> <value>)*k) | p2d <arg> (~ | F | D <docname>) | p2r <arg> (~ | D <docname>)
+                     | dj <arg> (~ | D <docname>) | acc <arg> 0|1 | split1 <arg> <strs>
+                     | dyn <key strs> (~ | N <n> node*n <warning strs>)
        T <n> tokens:   <ty> <tag> <na> (<k> <v>)* <content> <markup> <info> <nm> (<k> <v>)* <map ~|a,b> <nc> children
    flags = all_links_external highlight mathjax_block html_convert footnote_sort footnote_transition (0/1 each)
    Reply: tree " | " warnings, or !<error>. *)
@@ -32,13 +34,34 @@ type tables = {
   mutable t_lex : ((n list * n list) * (n list list * n list) list option) list;
   mutable t_p2d : (n list * n list option option) list;
   mutable t_p2r : (n list * n list option) list;
+  mutable t_dj : (n list * n list option) list;
+  mutable t_acc : (n list * bool) list;
+  mutable t_split1 : (n list * n list list) list;
+  mutable t_dyn : (n list list * (node list * n list list) option) list;
 }
+
+(* a node in the syntax of show_node: X <oid> <text> | E <oid> <tag> <na> (<k> <nv> <v>*)* <nc> children *)
+let rec parse_node (r : string list) : node * string list =
+  match r with
+  | "X" :: o :: s :: r -> (Text (n_of_int (int_of_string o), str_of_field s), r)
+  | "E" :: o :: tg :: r ->
+      let (na, r) = take_int r in
+      let (attrs, r) = times na (fun r -> match r with
+          | k :: r -> let (nv, r) = take_int r in
+              let (vs, r) = times nv (fun r -> match r with v :: r -> (str_of_field v, r) | [] -> failwith "eof-attr") [] r in
+              ((str_of_field k, vs), r)
+          | [] -> failwith "eof-attrs") [] r in
+      let (nc, r) = take_int r in
+      let (cs, r) = times nc parse_node [] r in
+      (Elem (n_of_int (int_of_string o), str_of_field tg, attrs, cs), r)
+  | x :: _ -> failwith ("bad-node " ^ x)
+  | [] -> failwith "eof-node"
 
 let show_key k = field_of_str k
 
 let parse_oracles (r : string list) : tables * string list =
   let tb = { t_split = []; t_strip = []; t_norm = []; t_mkid = []; t_nlt = []; t_nl = []; t_gfm = []; t_isdigit = [];
-             t_lex = []; t_p2d = []; t_p2r = [] } in
+             t_lex = []; t_p2d = []; t_p2r = []; t_dj = []; t_acc = []; t_split1 = []; t_dyn = [] } in
   match r with
   | "O" :: r ->
       let (n, r) = take_int r in
@@ -65,6 +88,16 @@ let parse_oracles (r : string list) : tables * string list =
         | "p2d" :: a :: "~" :: r -> tb.t_p2d <- (str_of_field a, None) :: tb.t_p2d; go (n-1) r
         | "p2d" :: a :: "F" :: r -> tb.t_p2d <- (str_of_field a, Some None) :: tb.t_p2d; go (n-1) r
         | "p2d" :: a :: "D" :: d :: r -> tb.t_p2d <- (str_of_field a, Some (Some (str_of_field d))) :: tb.t_p2d; go (n-1) r
+        | "dj" :: a :: "~" :: r -> tb.t_dj <- (str_of_field a, None) :: tb.t_dj; go (n-1) r
+        | "dj" :: a :: "D" :: d :: r -> tb.t_dj <- (str_of_field a, Some (str_of_field d)) :: tb.t_dj; go (n-1) r
+        | "acc" :: a :: v :: r -> tb.t_acc <- (str_of_field a, v = "1") :: tb.t_acc; go (n-1) r
+        | "split1" :: a :: v :: r -> tb.t_split1 <- (str_of_field a, strs_of_field v) :: tb.t_split1; go (n-1) r
+        | "dyn" :: k :: "~" :: r -> tb.t_dyn <- (strs_of_field k, None) :: tb.t_dyn; go (n-1) r
+        | "dyn" :: k :: "N" :: r ->
+            let (nn, r) = take_int r in
+            let (ns, r) = times nn parse_node [] r in
+            let (ws, r) = take r in
+            tb.t_dyn <- (strs_of_field k, Some (ns, strs_of_field ws)) :: tb.t_dyn; go (n-1) r
         | x :: _ -> failwith ("bad-oracle-entry " ^ x)
         | [] -> failwith "eof-oracle" in
       let r = go n r in
@@ -98,6 +131,12 @@ let oracles_of (tb : tables) : oracles = {
   o_gfm_filter = (fun a -> lookup "gfm" tb.t_gfm a []);
   o_p2d_raw = (fun a -> lookup "p2r" tb.t_p2r a None);
   o_path2doc = (fun a -> lookup "p2d" tb.t_p2d a None);
+  o_docjoin = (fun a -> lookup "dj" tb.t_dj a None);
+  o_access = (fun a -> lookup "acc" tb.t_acc a false);
+  o_split1 = (fun a -> lookup "split1" tb.t_split1 a []);
+  o_dyn = (fun k -> match List.assoc_opt k tb.t_dyn with
+      | Some v -> v
+      | None -> miss "dyn" (field_of_strs k) None);
 }
 
 let parse_pairs r =
